@@ -413,7 +413,9 @@ func Explore(sc Scenario, cfg Config) *Stats {
 							} else {
 								fresh = false
 							}
-							if r.self && r.hist == e.hists[si] {
+							if r.self && r.hist == e.hists[si] && !x.Prune {
+								// the run is still a faithful replay of the parent state; a pruned run (poisoned by a failed batch
+								// call, dead after a violation) is never used again
 								fresh = true
 							}
 							o.rs = append(o.rs, r)
